@@ -6,6 +6,7 @@
 (*   - the outcome (result classes, final observables) is the result of SOME one-at-a-time order of the same   *)
 (*     requests: admitted set conflict-free, selections disjoint, no request hangs or panics (OutcomeOK),      *)
 (*   - balances answered by the node are those of its unspent outputs,                                         *)
+(*   - the selection locks left behind are those of the outputs handed to successful locking selectors,        *)
 (*   - the one-at-a-time epilogue (every transaction once more) behaves as on the final state (no lock left).  *)
 (* ACTUAL: with KF_SharedLockRefCountRace a run in which the window of the reference-count protocol was hit    *)
 (* on key k (gated: seen in the steps; free: two sharers and a writer of k among the requests) may overlap on  *)
@@ -28,7 +29,8 @@ Judge(ev) ==
       R == ResOf(ev)
       O == ObsRec(ev.obs)
       over == OverlapKeys(scn, ev.steps)
-      rest == BalOK(ev.obs) /\ BalOK(ev.obs2) /\ EpilogueOK(scn, O, ev.epi, ObsRec(ev.obs2))
+      selOK == SelLocksOK(scn, R, O, Pairs(ev.obs.free))
+      rest == BalOK(ev.obs) /\ BalOK(ev.obs2) /\ selOK /\ EpilogueOK(scn, O, ev.epi, ObsRec(ev.obs2))
       race == IF ~KF_SharedLockRefCountRace THEN {}
               ELSE IF ev.mode = "gated" THEN RaceWindowKeys(scn, ev.steps) ELSE RaceKeys(scn) IN
   IF over = {} /\ OutcomeOK(scn, R, O, {}) /\ rest THEN [ok |-> TRUE, dev |-> {}, why |-> ""]
@@ -36,7 +38,7 @@ Judge(ev) ==
        THEN [ok |-> TRUE, dev |-> {"KF_SharedLockRefCountRace"}, why |-> ""]
   ELSE [ok |-> FALSE, dev |-> {},
         why |-> IF over # {} THEN "exclusion" ELSE IF ~OutcomeOK(scn, R, O, {}) THEN "outcome"
-                ELSE IF ~(BalOK(ev.obs) /\ BalOK(ev.obs2)) THEN "balance" ELSE "epilogue"]
+                ELSE IF ~(BalOK(ev.obs) /\ BalOK(ev.obs2)) THEN "balance" ELSE IF ~selOK THEN "selection_lock" ELSE "epilogue"]
 
 TInit == InitFor(<<"p2", "p3">>) /\ l = 1 /\ div = NoDiv /\ devAll = {} /\ TLCSet(1, 1) /\ TLCSet(2, NoDiv) /\ TLCSet(3, {})
 TStep ==
